@@ -7,7 +7,7 @@ Corr:    Lean model `Between` — definition-level spec (dist / sigma / bcSpec /
          (compared with the real routines' floats at 1e-9 and, exactly, with the spec model; Props/C08.lean proves
          the algorithm-level models equal to the spec, so this tie is what binds the theorems to /repo).
 """
-import sys
+import sys, zlib
 from fractions import Fraction as Fr
 from common import *  # noqa
 
@@ -246,6 +246,71 @@ def rational_cases(rs, count, tier):
     return out
 
 
+NEAR_DEN = 2 ** 40
+
+
+def near_tie_cases(rs, count):
+    """lengths k/4 perturbed by j*2^-e (e = 30..40, exact in floats, common denominator 2^40): routes whose totals differ by
+    less than any reasonable float tolerance although the exact oracle says they are NOT ties, next to exactly tied
+    penultimate nodes (unperturbed parallel routes)."""
+    out = []
+
+    def Q(W):
+        out.append(('Q', tuple(tuple(int(x) for x in r) for r in W), NEAR_DEN))
+
+    unit = NEAR_DEN // 4
+    for e in range(30, 41):
+        eps = NEAR_DEN >> e
+        # diamond s->a->t, s->b->t with a,b exactly tied and the second route longer by 2^-e; then two diamonds in series
+        Q([[0, 4 * unit, 4 * unit, 0], [0, 0, 0, 4 * unit], [0, 0, 0, 4 * unit + eps], [0, 0, 0, 0]])
+        W = np.zeros((7, 7), dtype=object)
+        for k in (0, 3):
+            W[k, k + 1] = 2 * unit; W[k, k + 2] = 2 * unit; W[k + 1, k + 3] = 2 * unit; W[k + 2, k + 3] = 2 * unit + (eps if k == 0 else 0)
+        Q(W); Q(W + W.T)
+    for k in range(count):
+        n = int(rs.randint(4, 10))
+        directed = bool(rs.rand() < .5)
+        A = rand_graph(rs, n, float(rs.choice([.25, .4, .6, .85])), directed)
+        base = rs.choice([2, 4, 4, 8], size=(n, n))            # 1/2, 1, 1, 2
+        pert = (rs.rand(n, n) < .3) * rs.randint(1, 4, size=(n, n))
+        e = int(rs.randint(30, 41))
+        if not directed:
+            base = np.triu(base, 1); base = base + base.T
+            pert = np.triu(pert, 1); pert = pert + pert.T
+        W = [[int(A[i, j]) * (int(base[i, j]) * unit + int(pert[i, j]) * (NEAR_DEN >> e)) for j in range(n)] for i in range(n)]
+        Q(W)
+    return out
+
+
+DT_BIN = ['int64', 'int32', 'bool', 'uint8', 'float64']
+DT_INT = ['int64', 'float64']
+ORDERS = ['C', 'F', 'T', 'V']
+
+
+def choose_rep(case, binary, den):
+    """deterministic representation of the input array: (dtype, memory order); 60% of the cases keep float64 / C"""
+    h = zlib.crc32(repr(case).encode())
+    if h % 10 < 6:
+        return 'float64', 'C'
+    h //= 10
+    dts = DT_BIN if binary else (DT_INT if den == 1 else ['float64'])
+    return dts[h % len(dts)], ORDERS[(h // 7) % len(ORDERS)]
+
+
+def make_input(A, dtype, order):
+    """same logical matrix, different storage: dtype, C / Fortran order, transposed view, strided view"""
+    B = A.astype(dtype)
+    if order == 'F':
+        return np.asfortranarray(B)
+    if order == 'T':
+        return np.ascontiguousarray(B.T).T
+    if order == 'V':
+        big = np.zeros((len(B), 2 * len(B)), dtype=B.dtype)
+        big[:, ::2] = B
+        return big[:, ::2]
+    return np.ascontiguousarray(B)
+
+
 def malformed_cases(rs, count):
     """non-empty diagonal: outside the property's domain; correspondence of the algorithm models only"""
     out = []
@@ -281,6 +346,9 @@ def run_chunk(arg):
 
     lines, meta = [], []
     for case in cases:
+        rep = None
+        if case[0] == 'R':
+            rep = (case[2], case[3]); case = case[1]
         mal = case[0] == 'X'
         L = decode(('M', case[1]) if mal else case)
         n = len(L)
@@ -288,7 +356,9 @@ def run_chunk(arg):
         A = np.array(L, dtype=float).reshape(n, n) / den      # exact: dyadic denominators
         binary = den == 1 and all(x in (0, 1) for r in L for x in r)
         if den != 1:
-            cnt('rational-lengths'); cnt('den=%d' % den)
+            cnt('rational-lengths'); cnt('den=2^40(near-ties)' if den == NEAR_DEN else 'den=%d' % den)
+        dtype, order = rep or choose_rep(case, binary, den)
+        cnt('dtype=' + dtype); cnt('order=' + order)
         directed = any(L[i][j] != L[j][i] for i in range(n) for j in range(n))
         routines = ROUT_BIN if binary else ROUT_WEI
         R['evals'] += 1
@@ -297,7 +367,8 @@ def run_chunk(arg):
             cnt('malformed:diagonal')
         outs = {}
         for f in routines:
-            A0 = A.copy()
+            A0 = make_input(A, dtype, order)
+            Akeep = A0.copy()
             st, o = call(getattr(bct, f), A0, t=5.0)
             cnt('calls:' + f); cnt(st + ':' + f)
             if st == 'timeout':
@@ -309,8 +380,8 @@ def run_chunk(arg):
                 outs[f] = ('ok', np.asarray(o[0], dtype=float).reshape(n, n).tolist(), np.asarray(o[1], dtype=float).ravel().tolist())
             else:
                 outs[f] = ('ok', None, np.asarray(o, dtype=float).ravel().tolist())
-            if not np.array_equal(A0, A):
-                R['viol'].append((f, 'input-modified', {'L': L, 'den': den}, {'routine': f}))
+            if A0.dtype != Akeep.dtype or not np.array_equal(A0, Akeep):
+                R['viol'].append((f, 'input-modified', {'L': L, 'den': den, 'dtype': dtype, 'order': order}, {'routine': f}))
         if not mal:
             dist, sig, BC, EBC = brute(L if den == 1 else [[Fr(x, den) for x in r] for r in L])
             disconnected = any(dist[s][t] is None for s in range(n) for t in range(n))
@@ -323,46 +394,46 @@ def run_chunk(arg):
             if nontriv:
                 R['keys'].append(digest(L))
                 if len(R['samples']) < 2 and ties and disconnected:
-                    R['samples'].append({'L': L, 'den': den, 'BC': [str(x) for x in BC], 'sigma': sig})
-            cond0 = {'disconnected': disconnected, 'directed': directed, 'binary': binary, 'max_unreachable_from_a_source': min(unreach_per_src, 2)}
+                    R['samples'].append({'L': L, 'den': den, 'dtype': dtype, 'order': order, 'BC': [str(x) for x in BC], 'sigma': sig})
+            cond0 = {'disconnected': disconnected, 'directed': directed, 'binary': binary, 'dtype': dtype, 'order': order, 'max_unreachable_from_a_source': min(unreach_per_src, 2)}
             ebc_flat = [x for r in EBC for x in r]
             for f in routines:
                 if f not in outs:
                     continue
                 cond = dict(cond0, routine=f)
                 if outs[f][0] == 'exc':
-                    R['viol'].append((f, 'raises', {'L': L, 'den': den, 'exception': outs[f][1]}, cond))
+                    R['viol'].append((f, 'raises', {'L': L, 'den': den, 'dtype': dtype, 'order': order, 'exception': outs[f][1]}, cond))
                     continue
                 _, ebc, bc = outs[f]
                 if not vec_close(bc, BC):
-                    R['viol'].append((f, 'node-betweenness', {'L': L, 'den': den, 'returned': bc, 'expected': [str(x) for x in BC]}, cond))
+                    R['viol'].append((f, 'node-betweenness', {'L': L, 'den': den, 'dtype': dtype, 'order': order, 'returned': bc, 'expected': [str(x) for x in BC]}, cond))
                 if ebc is not None and not vec_close([x for r in ebc for x in r], ebc_flat):
-                    R['viol'].append((f, 'edge-betweenness', {'L': L, 'den': den, 'returned': ebc, 'expected': [[str(x) for x in r] for r in EBC]}, cond))
+                    R['viol'].append((f, 'edge-betweenness', {'L': L, 'den': den, 'dtype': dtype, 'order': order, 'returned': ebc, 'expected': [[str(x) for x in r] for r in EBC]}, cond))
                 if binary:
                     hd = bfs_dist(L)
                     tot = sum(hd[s][t] for s in range(n) for t in range(n) if s != t and hd[s][t] is not None)
                     npairs = sum(1 for s in range(n) for t in range(n) if s != t and hd[s][t] is not None)
                     if not close(sum(bc), tot - npairs):
-                        R['viol'].append((f, 'sum-node-bin', {'L': L, 'den': den, 'sum_BC': sum(bc), 'sum_d_minus_1': tot - npairs}, cond))
+                        R['viol'].append((f, 'sum-node-bin', {'L': L, 'den': den, 'dtype': dtype, 'order': order, 'sum_BC': sum(bc), 'sum_d_minus_1': tot - npairs}, cond))
                     if ebc is not None and not close(sum(x for r in ebc for x in r), tot):
-                        R['viol'].append((f, 'sum-edge-bin', {'L': L, 'den': den, 'sum_EBC': sum(x for r in ebc for x in r), 'sum_d': tot}, cond))
+                        R['viol'].append((f, 'sum-edge-bin', {'L': L, 'den': den, 'dtype': dtype, 'order': order, 'sum_EBC': sum(x for r in ebc for x in r), 'sum_d': tot}, cond))
             # the node vector of the edge routines equals the node routines' result (real outputs only)
             for fe, fn in (('edge_betweenness_bin', 'betweenness_bin'), ('edge_betweenness_wei', 'betweenness_wei')):
                 if fe in outs and fn in outs and outs[fe][0] == 'ok' and outs[fn][0] == 'ok':
                     if not vec_close(outs[fe][2], outs[fn][2]):
-                        R['viol'].append((fe, 'edge-node-vector', {'L': L, 'den': den, 'edge_routine_BC': outs[fe][2], 'node_routine_BC': outs[fn][2]}, dict(cond0, routine=fe)))
+                        R['viol'].append((fe, 'edge-node-vector', {'L': L, 'den': den, 'dtype': dtype, 'order': order, 'edge_routine_BC': outs[fe][2], 'node_routine_BC': outs[fn][2]}, dict(cond0, routine=fe)))
         else:
             dist = sig = BC = EBC = None
         if lean_ok:
             ms = ','.join(str(int(x)) for r in L for x in r) + ('' if den == 1 else ' den=%d' % den)
             if not mal:
-                lines.append('spec n=%d L=%s' % (n, ms)); meta.append(('spec', (L, den), (dist, sig, BC, EBC), None))
+                lines.append('spec n=%d L=%s' % (n, ms)); meta.append(('spec', (L, den, dtype, order), (dist, sig, BC, EBC), None))
             for f in routines:
                 # betweenness_wei is the BC component of the very same model loop as edge_betweenness_wei: one driver line serves both
                 if f in outs and not (f == 'betweenness_wei' and 'edge_betweenness_wei' in outs):
-                    lines.append('%s n=%d L=%s' % (f, n, ms)); meta.append((f, (L, den), (dist, sig, BC, EBC), outs[f]))
+                    lines.append('%s n=%d L=%s' % (f, n, ms)); meta.append((f, (L, den, dtype, order), (dist, sig, BC, EBC), outs[f]))
                     if f == 'edge_betweenness_wei' and 'betweenness_wei' in outs:
-                        meta[-1] = (f, (L, den), (dist, sig, BC, EBC), outs[f], outs['betweenness_wei'])
+                        meta[-1] = (f, (L, den, dtype, order), (dist, sig, BC, EBC), outs[f], outs['betweenness_wei'])
     if lean_ok and lines:
         try:
             res = run_driver('Between', lines)
@@ -370,7 +441,7 @@ def run_chunk(arg):
             R['breaks'].append(('Between driver', str(e)))
             return R
         for mt, o in zip(meta, res):
-            op, (L, den), orc, py = mt[:4]
+            op, (L, den, dtype, order), orc, py = mt[:4]
             n = len(L)
             R['corr'] += 1
             bad = None
@@ -388,7 +459,7 @@ def run_chunk(arg):
                 if not okw:
                     R['corr_bad'] += 1
                     if len(R['breaks']) < 3:
-                        R['breaks'].append(('model vs bct.betweenness_wei', {'L': L, 'den': den, 'model': o[:300], 'impl': pw[1] if pw[0] == 'exc' else pw[2]}))
+                        R['breaks'].append(('model vs bct.betweenness_wei', {'L': L, 'den': den, 'dtype': dtype, 'order': order, 'model': o[:300], 'impl': pw[1] if pw[0] == 'exc' else pw[2]}))
             kvs = kv(o)
             try:
                 if op == 'spec':
@@ -397,30 +468,30 @@ def run_chunk(arg):
                     es = ','.join(str(x) for r in sig for x in r)
                     md = [None if t == 'inf' else Fr(t) for t in kvs['d'].split(',')]
                     if md != ed or kvs.get('sig') != es:
-                        bad = ('spec model dist/sigma vs brute-force oracle', {'L': L, 'den': den, 'model': o[:300], 'oracle_d': [str(x) for x in ed], 'oracle_sigma': es})
+                        bad = ('spec model dist/sigma vs brute-force oracle', {'L': L, 'den': den, 'dtype': dtype, 'order': order, 'model': o[:300], 'oracle_d': [str(x) for x in ed], 'oracle_sigma': es})
                     elif fr_list(kvs['bc']) != BC or fr_list(kvs['ebc']) != [x for r in EBC for x in r]:
-                        bad = ('spec model bcSpec/ebcSpec vs brute-force oracle', {'L': L, 'den': den, 'model': o[:300], 'oracle_bc': [str(x) for x in BC]})
+                        bad = ('spec model bcSpec/ebcSpec vs brute-force oracle', {'L': L, 'den': den, 'dtype': dtype, 'order': order, 'model': o[:300], 'oracle_bc': [str(x) for x in BC]})
                     else:
                         R['spec_exact'] += 1
                 elif py[0] == 'exc':
                     if kvs.get('error') != exc_kind(py[1]):
-                        bad = ('model vs bct.%s (exception)' % op, {'L': L, 'den': den, 'model': o[:300], 'impl': py[1]})
+                        bad = ('model vs bct.%s (exception)' % op, {'L': L, 'den': den, 'dtype': dtype, 'order': order, 'model': o[:300], 'impl': py[1]})
                 else:
                     if 'error' in kvs:
-                        bad = ('model vs bct.%s' % op, {'L': L, 'den': den, 'model': o[:300], 'impl': 'returned normally'})
+                        bad = ('model vs bct.%s' % op, {'L': L, 'den': den, 'dtype': dtype, 'order': order, 'model': o[:300], 'impl': 'returned normally'})
                     else:
                         mbc = fr_list(kvs['bc'])
                         okc = vec_close(py[2], mbc)
                         if py[1] is not None:
                             okc = okc and vec_close([x for r in py[1] for x in r], fr_list(kvs['ebc']))
                         if not okc:
-                            bad = ('model vs bct.%s' % op, {'L': L, 'den': den, 'model': o[:300], 'impl_bc': py[2], 'impl_ebc': py[1]})
+                            bad = ('model vs bct.%s' % op, {'L': L, 'den': den, 'dtype': dtype, 'order': order, 'model': o[:300], 'impl_bc': py[2], 'impl_ebc': py[1]})
                         elif orc[2] is not None:
                             # algorithm-level model = definition-level spec, exactly (also proved: brandes_wei_correct, edge_betweenness_bin_correct, betweennessBin_correct)
                             if mbc != orc[2] or (py[1] is not None and fr_list(kvs['ebc']) != [x for r in orc[3] for x in r]):
-                                bad = ('algorithm model %s vs definition (exact rationals)' % op, {'L': L, 'den': den, 'model': o[:300]})
+                                bad = ('algorithm model %s vs definition (exact rationals)' % op, {'L': L, 'den': den, 'dtype': dtype, 'order': order, 'model': o[:300]})
             except Exception as e:  # malformed driver output is a break, never agreement
-                bad = ('unparsable driver output for %s' % op, {'L': L, 'den': den, 'model': o[:300], 'exc': repr(e)})
+                bad = ('unparsable driver output for %s' % op, {'L': L, 'den': den, 'dtype': dtype, 'order': order, 'model': o[:300], 'exc': repr(e)})
             if bad:
                 R['corr_bad'] += 1
                 if len(R['breaks']) < 3:
@@ -439,7 +510,9 @@ def main():
                       'structured tie-rich graphs (paths, cycles, stars, grids, cube, complete bipartite, diamond chains), random n=5..9 graphs '
                       '(lengths 1..3, densities .12-.85, isolated nodes / two components / sources and sinks forced in half of them), dyadic rational '
                       'lengths k/den, den in {2,4,8} (exact in floats; exhaustive small graphs with lengths {1/den, 2/den}, random n=4..9 with halves/wholes, '
-                      'any k/den <= 2, mixed short/long), given to the weighted routines as numerators/den and to the model as numerators + den; every case is run '
+                      'any k/den <= 2, mixed short/long), given to the weighted routines as numerators/den and to the model as numerators + den; near ties: lengths k/4 + j*2^-e, e=30..40 '
+                      '(den 2^40, exact in floats) next to exact ties; representation axis on 40% of the cases: dtype (int64/int32/bool/uint8/float64 for binary, '
+                      'int64/float64 for integer lengths) and memory order (C, Fortran, transposed view, strided view) of the same logical matrix; every case is run '
                       'through all applicable routines. non-trivial = distinct matrix on which some node has non-zero betweenness '
                       '(at least one shortest path with an interior node)')
     ck.assumptions += ['connection lengths are positive integers, 0 = no connection, empty diagonal (the weighted routines take a connection-length matrix)',
@@ -455,6 +528,8 @@ def main():
         rc = json.load(open(ck.replay))['case']
         Lr = tuple(tuple(int(x) for x in r) for r in rc['L'])
         cases = [('Q', Lr, int(rc['den']))] if int(rc.get('den', 1)) != 1 else [('M', Lr)]
+        if rc.get('dtype'):
+            cases = [('R', cases[0], rc['dtype'], rc.get('order', 'C'))]
     elif ck.tier == 'thorough':
         cases = []
         for n in (1, 2, 3, 4):
@@ -462,17 +537,17 @@ def main():
         for n in (2, 3, 4, 5):
             cases += enum_cases(n, False, 2) + enum_cases(n, False, 3)
         ck.cov['exhaustive'] = True
-        cases += structured() + random_cases(rs, 6000) + rational_cases(rs, 6000, 'thorough') + malformed_cases(rs, 400)
+        cases += structured() + random_cases(rs, 6000) + rational_cases(rs, 6000, 'thorough') + near_tie_cases(rs, 4000) + malformed_cases(rs, 400)
     else:
         cases = []
         for n in (1, 2, 3):
             cases += enum_cases(n, True, 2) + enum_cases(n, True, 3)
         for n in (2, 3, 4):
             cases += enum_cases(n, False, 2) + enum_cases(n, False, 3)
-        cases += enum_cases(4, True, 2) + enum_cases(4, True, 3, rs, 5000)
-        cases += enum_cases(5, False, 2) + enum_cases(5, False, 3, rs, 2500)
-        cases += structured() + random_cases(rs, 1000) + rational_cases(rs, 1500, 'quick') + malformed_cases(rs, 100)
-    csz = 400 if ck.tier == 'quick' else 2500
+        cases += enum_cases(4, True, 2) + enum_cases(4, True, 3, rs, 3000)
+        cases += enum_cases(5, False, 2) + enum_cases(5, False, 3, rs, 1500)
+        cases += structured() + random_cases(rs, 800) + rational_cases(rs, 1200, 'quick') + near_tie_cases(rs, 600) + malformed_cases(rs, 100)
+    csz = 900 if ck.tier == 'quick' else 2500
     chunks = [(i, cases[i:i + csz], ok) for i in range(0, len(cases), csz)]
     # interleave cheap and expensive chunks a little: sort is not needed, pool.map balances with chunksize 1
     import multiprocessing as mp
